@@ -47,7 +47,7 @@ int main(int argc, char** argv) {
   if (argc < 2) return 2;
   const char* name = argv[1];
   const char *salt = "", *readsFile = NULL, *depOut = NULL, *depStyle = "makefile", *failFile = NULL, *logf = getenv("BSCMD_LOG");
-  const char* ins[MAXA]; int nin = 0; const char* outs[MAXA]; int nout = 0; const char* envs[MAXA]; int nenv = 0; long sleepMs = 0;
+  const char* ins[MAXA]; int nin = 0; const char* outs[MAXA]; int nout = 0; const char* envs[MAXA]; int nenv = 0; long sleepMs = 0; int depCorrupt = 0;
   for (int i = 2; i < argc; ++i) {
     const char* a = argv[i]; const char* v = i + 1 < argc ? argv[i + 1] : "";
     if (!strcmp(a, "--salt")) { salt = v; ++i; }
@@ -57,6 +57,7 @@ int main(int argc, char** argv) {
     else if (!strcmp(a, "--reads-file")) { readsFile = v; ++i; }
     else if (!strcmp(a, "--dep-out")) { depOut = v; ++i; }
     else if (!strcmp(a, "--dep-style")) { depStyle = v; ++i; }
+    else if (!strcmp(a, "--dep-corrupt")) { depCorrupt = 1; }
     else if (!strcmp(a, "--fail-file")) { failFile = v; ++i; }
     else if (!strcmp(a, "--sleep-ms")) { sleepMs = atol(v); ++i; }
     else if (!strcmp(a, "--log")) { logf = v; ++i; }
@@ -94,7 +95,11 @@ int main(int argc, char** argv) {
   if (depOut) {
     FILE* f = fopen(depOut, "w");
     if (!f) return 5;
-    if (!strcmp(depStyle, "depinfo")) {
+    if (depCorrupt && !strcmp(depStyle, "depinfo")) {
+      fputc(0x00, f); fputs("bscmd-1", f); fputc(0, f); fputc(0x10, f); fputs("/unterminated/input/record", f);   /* no NUL terminator */
+    } else if (depCorrupt) {
+      fputs("target", f); for (int i = 0; i < nreads; ++i) { fputc(' ', f); fputs("dep", f); } fputc('\n', f);       /* no ':' after the rule name */
+    } else if (!strcmp(depStyle, "depinfo")) {
       fputc(0x00, f); fputs("bscmd-1", f); fputc(0, f);
       for (int i = 0; i < nreads; ++i) { int missing = access(reads[i], F_OK) != 0; fputc(missing ? 0x11 : 0x10, f); fputs(reads[i], f); fputc(0, f); }
       for (int i = 0; i < nout; ++i) { fputc(0x40, f); fputs(outs[i], f); fputc(0, f); }
